@@ -64,6 +64,12 @@ func token(o fsop) string {
 			return "BsuAppend " + s
 		}
 		return "Other"
+	case strings.HasSuffix(f, ".pqmr"):
+		// persistent-query match results: FlushPqmr appends blkNum, size, bitset length, bitset words
+		if o.Kind == "write" || o.Kind == "pwrite" {
+			return "PqmrWrite " + s
+		}
+		return "Other"
 	case strings.HasSuffix(f, ".sst.tmp"):
 		if o.Kind == "write" {
 			return "SstWrite " + s
@@ -170,6 +176,15 @@ func observedHistory(h history, toks []string) string {
 			}
 		}
 		items = append(items, fmt.Sprintf("Flush %d %d", m, n))
+		// persistent-query match results appended after the .sfm (FlushPqmr)
+		p := 0
+		for i < len(prot) && strings.HasPrefix(prot[i], "PqmrWrite") {
+			p++
+			i++
+		}
+		if p > 0 {
+			items = append(items, fmt.Sprintf("PqWrites %d", p))
+		}
 	}
 	return vhlib.CoqList(items)
 }
@@ -206,6 +221,49 @@ func genHistory(r *vhlib.Rng) history {
 	return h
 }
 
+// a history for the persistent-query stream: at least one segment with two or more flushes, a rotation, flushes after
+// it; consecutive blocks of a segment get DIFFERENT match sets for the filter (so that answering a block with another
+// block's stored bits, or with none, changes the answer)
+func genPQHistory(r *vhlib.Rng, thorough bool) history {
+	for try := 0; ; try++ {
+		h := history{Index: "idx", PQ: true, Filter: fmt.Sprintf("w=w%d", r.Intn(3))}
+		nseg := 2
+		if thorough {
+			nseg = r.Range(2, 3)
+		}
+		for s := 0; s < nseg; s++ {
+			nf := r.Range(1, 2)
+			if s == 0 {
+				nf = r.Range(2, 3)
+			}
+			for i := 0; i < nf; i++ {
+				h.Steps = append(h.Steps, step{Kind: "flush", N: r.Range(1, 4)})
+			}
+			if s < nseg-1 || r.Chance(30) {
+				h.Steps = append(h.Steps, step{Kind: "rotate"})
+			}
+		}
+		ok := true
+		bl := blocksOf(h)
+		for i := 1; i < len(bl); i++ {
+			if bl[i].Seg != bl[i-1].Seg {
+				continue
+			}
+			same := true
+			for j := 0; j < bl[i].N; j++ {
+				prev := j < bl[i-1].N && filterMatches(h, bl[i-1].From+j)
+				if prev != filterMatches(h, bl[i].From+j) {
+					same = false
+				}
+			}
+			ok = ok && !same
+		}
+		if ok || try > 50 {
+			return h
+		}
+	}
+}
+
 func intsEq(a, b []int) bool {
 	if len(a) != len(b) {
 		return false
@@ -221,21 +279,31 @@ func intsEq(a, b []int) bool {
 func driverMain() {
 	cfg := vhlib.ParseFlags()
 	sum := vhlib.NewSummary("one case = one crash point: the file-system state after the first k completed system calls of a traced ingest/flush/rotate history (strace of the real worker, replayed into a fresh directory at the same path), followed by a real restart + `*` + `stats count` + further ingest; " +
-		"quick: stratified sample of k (every protocol token boundary of sfm/bsu/sst/segmeta + random), thorough: every k; non-trivial = at least one flush had started; distinct by (history, k)")
+		"after every restart also a filter query (`w=w<r>`: exactly the visible events that match); every third history is a persistent-query history (the filter asked on the empty index before the first event: every flush appends the block's match bits to <segkey>/pqmr/<pqid>.pqmr, consecutive blocks of a segment have different match sets; in every crash state each pqmr file is read by the real ReadPqmr and compared with what the traced writer had appended, and the query's per-block answer with the searcher model); " +
+		"quick: stratified sample of k (every protocol token boundary of sfm/bsu/sst/segmeta + random; persistent-query history: every boundary of the pqmr appends + 9 others), thorough: every k; non-trivial = at least one flush had started; distinct by (history, k)")
 	r := vhlib.NewRng(cfg.Seed)
 	self, _ := os.Executable()
-	nh := 2
+	nh := 3
 	if cfg.Thorough() {
 		nh = 5
 	}
 	caseShard := 0
 	for hi := 0; hi < nh; hi++ {
 		h := genHistory(r.Fork())
+		if v := os.Getenv("C07_ONLY_H"); v != "" && v != strconv.Itoa(hi) {
+			continue
+		}
 		if hi == 0 {
 			h = history{Index: "idx", Steps: []step{{"flush", 2}, {"flush", 1}, {"rotate", 0}, {"flush", 2}}}
 		}
 		if hi%2 == 1 {
 			h.Desc = true // late-arriving data: every flush holds OLDER timestamps than the one before
+		}
+		h.Filter = "w=w1"
+		if hi%3 == 2 {
+			// persistent-query stream: the filter is asked before the first event arrives, every flush appends the block's
+			// match bits to the segment's pqmr file, after the restart the filter is answered from those files
+			h = genPQHistory(r.Fork(), cfg.Thorough())
 		}
 		root, _ := filepath.Abs(filepath.Join(cfg.Out, fmt.Sprintf("h%d", hi)))
 		_ = os.MkdirAll(root, 0o755)
@@ -281,6 +349,17 @@ func driverMain() {
 				ks = append(ks, k)
 			}
 		} else {
+			budget := 36
+			must := map[int]bool{} // the window of the persistent-query appends: every boundary is kept
+			for i, t := range toks {
+				if strings.HasPrefix(t, "PqmrWrite") {
+					must[i] = true
+					must[i+1] = true
+				}
+			}
+			if h.PQ {
+				budget = 9 + len(must)
+			}
 			pick := map[int]bool{0: true, len(ops): true}
 			for i, t := range sufToks {
 				if strings.HasPrefix(t, "Suf") {
@@ -298,16 +377,27 @@ func driverMain() {
 				pick[r.Intn(len(ops)+1)] = true
 			}
 			for k := range pick {
+				if !must[k] {
+					ks = append(ks, k)
+				}
+			}
+			sort.Ints(ks)
+			if rest := budget - len(must); len(ks) > rest {
+				// keep the budget: thin out evenly (the sfm/bsu boundaries stay over-represented)
+				var ks2 []int
+				for i := 0; i < rest; i++ {
+					ks2 = append(ks2, ks[i*len(ks)/rest])
+				}
+				ks = ks2
+			}
+			for k := range must {
 				ks = append(ks, k)
 			}
 			sort.Ints(ks)
-			if len(ks) > 36 {
-				// keep the budget: thin out evenly (the sfm/bsu boundaries stay over-represented)
-				var ks2 []int
-				for i := 0; i < 36; i++ {
-					ks2 = append(ks2, ks[i*len(ks)/36])
-				}
-				ks = ks2
+		}
+		if os.Getenv("C07_DUMP") != "" {
+			for i, o := range ops {
+				fmt.Fprintf(os.Stderr, "op %d: %s %s -> %s [%s] %d bytes %x\n", i, o.Kind, strings.TrimPrefix(o.Path, run1), strings.TrimPrefix(o.Path2, run1), toks[i], len(o.Data), o.Data[:min(len(o.Data), 24)])
 			}
 		}
 		if v := os.Getenv("C07_ONLY_K"); v != "" {
@@ -367,6 +457,14 @@ func driverMain() {
 			}
 		}
 		writeCases(cfg, sum, &caseShard, h, cases)
+		if h.PQ {
+			checkPqmrWriter(cfg, sum, hi, ops, h)
+			if len(pqReadCases) == 0 {
+				sum.HarnessError(fmt.Sprintf("history %d: no pqmr file was read in any crash state", hi))
+			}
+			writePqmrReadCases(cfg, sum, hi)
+			writePqmrAnswerCases(cfg, sum, hi)
+		}
 		// suffix-file protocol: the traced calls must be the model's ops for nAllocs allocations, and in every crash state
 		// the file must hold what the model says (the restarted writer allocates that number next)
 		{
@@ -455,6 +553,9 @@ func recoverAt(self, run1, hf string, ops []fsop, k int, sum *vhlib.Summary, h h
 			sum.HarnessError(fmt.Sprintf("replay op %d (%s %s): %v", o.Line, o.Kind, o.Path, err))
 			return nil, false
 		}
+	}
+	if h.PQ {
+		checkPqmrFiles(run1, ops, k, sum, h, map[string]interface{}{"history": h, "crash_after_syscalls": k})
 	}
 	lastSuffixObs = -1
 	if fs, _ := filepath.Glob(filepath.Join(run1, "data", "*", "suffix", "*", "*.suffix")); len(fs) <= 1 {
@@ -593,6 +694,79 @@ func recoverAt(self, run1, hf string, ops []fsop, k int, sum *vhlib.Summary, h h
 				}
 			}
 			next += st.N
+		}
+	}
+	// the filter query (answered from the pqmr files when it is a persistent query): exactly the visible events that match
+	if h.Filter != "" {
+		kind, how := "filter_query", "`"+h.Filter+"`"
+		if h.PQ {
+			kind, how = "persistent_query", "persistent query `"+h.Filter+"`"
+			if rec.FilterPath[1] > 0 {
+				sum.Count("persistent_query_answered_from_pqmr_files")
+			}
+		}
+		judge := func(when string, visible, got []int, suffix string) {
+			if got == nil {
+				return
+			}
+			want := []int{}
+			for _, id := range visible {
+				if filterMatches(h, id) {
+					want = append(want, id)
+				}
+			}
+			if intsEq(want, got) {
+				return
+			}
+			if h.PQ {
+				// the known finding and nothing else: exactly the matching events of the blocks the searcher skips are missing
+				skipped := skippedByKnownDefect(h, visible)
+				var want2 []int
+				for _, id := range want {
+					if !skipped[id] {
+						want2 = append(want2, id)
+					}
+				}
+				if len(skipped) > 0 && intsEq(want2, got) {
+					sum.Fail("persistent_query_skips_block_without_match_results", fmt.Sprintf("crash point %d, %s: %s returns %v, expected %v: the crash came after the .sfm rename of a flush and before the end of its pqmr record; the file reports as many blocks as the .sfm's NumBlocks (= index of the last flushed block), so the block of that flush is not searched", k, when, how, got, want), c)
+					return
+				}
+			}
+			have := map[int]int{}
+			for _, id := range got {
+				have[id]++
+			}
+			vis := map[int]bool{}
+			for _, id := range visible {
+				vis[id] = true
+			}
+			for _, id := range want {
+				if have[id] == 0 {
+					sum.Fail(kind+"_misses_matching_event"+suffix, fmt.Sprintf("crash point %d, %s: %s returns %v, but event %d is returned by `*` and matches (expected %v; segments raw-searched/answered from pqmr: %v)", k, when, how, got, id, want, rec.FilterPath), c)
+					return
+				}
+			}
+			for _, id := range got {
+				if !filterMatches(h, id) || !vis[id] {
+					sum.Fail(kind+"_returns_non_matching_event"+suffix, fmt.Sprintf("crash point %d, %s: %s returns %v, but event %d does not match or is not returned by `*` (expected %v; segments raw-searched/answered from pqmr: %v)", k, when, how, got, id, want, rec.FilterPath), c)
+					return
+				}
+			}
+			sum.Fail(kind+"_returns_event_twice"+suffix, fmt.Sprintf("crash point %d, %s: %s returns %v, expected %v", k, when, how, got, want), c)
+		}
+		if rec.FilterErr != "" {
+			sum.Fail(kind+"_error_after_crash", fmt.Sprintf("crash point %d: %s: %s", k, how, rec.FilterErr), c)
+		} else {
+			judge("after restart", rec.IDs, rec.Filter, "_after_crash")
+			if h.PQ && rec.Filter != nil && rec.Err == "" {
+				addAnswerCases(h, rec.IDs, rec.Filter)
+			}
+		}
+		if rec.AfterErr == "" {
+			judge("after restart and two more flushed events", rec.After, rec.FilterAfter, "_after_later_ingest")
+		}
+		if rc2 == 0 && rec.AgainErr == "" {
+			judge("after the second restart", rec.Again, rec.FilterAgain, "_after_second_crash")
 		}
 	}
 	if rec.CountErr != "" {
